@@ -28,6 +28,10 @@ EXITS = []              # (pid, status) passed to the exit callback
 
 
 def on_exit_cb(pid, status):
+    w = vos.world()
+    p = w.procs.get(vos.cur_pid()) if w is not None else None
+    if p is None or p.state != 'running':
+        return      # code unwinding in an already dead virtual process
     EXITS.append((pid, status))
 
 
@@ -35,7 +39,7 @@ def on_exit_cb(pid, status):
 TASKS = {
     'ok': tasks.work, 'raise': tasks.work_raise, 'base': tasks.work_base,
     'unpicklable': tasks.work_unpicklable, 'catch': tasks.work_catch_soft,
-    'inexc': tasks.work_in_except,
+    'inexc': tasks.work_in_except, 'convert': tasks.work_convert,
 }
 
 
@@ -269,7 +273,7 @@ def spec_check(cfg, r, inject):
     # ---- results describe what the task did
     for (job, ok) in order:
         name = script[job - 10]
-        exp_ok = name in ('ok', 'catch', 'inexc')
+        exp_ok = name in ('ok', 'catch', 'inexc', 'convert')
         soft_hit = sig == SOFT
         if ok != exp_ok and not soft_hit and sig is None:
             return 'job %d (%s) reported success=%r' % (job, name, ok)
@@ -410,7 +414,8 @@ CHECKS = {int(signal.SIGTERM): term_check, int(SOFT): soft_check,
 # ---------------------------------------------------------------- drivers
 def configs(tier):
     T = tier == 'thorough'
-    names = ['ok', 'raise', 'base', 'unpicklable', 'catch', 'inexc']
+    names = ['ok', 'raise', 'base', 'unpicklable', 'catch', 'inexc',
+             'convert']
     out = []
     maxlen = 2 if not T else 3
     for n in range(1, maxlen + 1):
